@@ -503,7 +503,7 @@ func TestVerifC03(t *testing.T) {
 	rapid.Check(t, func(rt *rapid.T) {
 		c := genC03(rt)
 		v, nt, inc := runC03(c)
-		if inc {
+		if inc || (v != nil && vFlapsSinceMark() > 0) {
 			col.Inconclusive()
 			return
 		}
